@@ -530,6 +530,9 @@ class ExprMixin:
             R.append((bad, ExcV("KeyError", site=f"L{line}")))
             p.assume(h.ddom(c.z, k))
             return [(p, self.dict_value(p, c, k))]
+        if c.tag == "ref" and c.cls == "Tree":  # tree[key] -> Tree.__getitem__ (by contract)
+            defcls, fd = self.src.class_member(self.node_class_for(c, p), "__getitem__")
+            return self.call_repo(self.src.qualname(defcls, fd), c, [i], {}, p, R, node)
         if c.tag == "tuple" and i.tag == "int" and z3.is_int_value(i.z):
             return [(p, c.z[i.z.as_long()])]
         if c.tag == "val" and c.extra and i.tag == "str" and i.z in c.extra:
